@@ -1,6 +1,7 @@
 import MobiusModel.Session
 import MobiusModel.SessionTransfer
 import MobiusModel.Generated.Consts
+import MobiusModel.Generated.PeerReads
 /-!
   C02 — Segmentation-independent parsing of client byte streams.
 
@@ -116,6 +117,24 @@ theorem folder_upload_segmentation_independent (n : Nat) (actions : List Nat) (c
 
 theorem generated_handshakeSize : Generated.miscConsts.lookup "handshakeSize" = some 12 := by decide
 theorem generated_tranHeaderLen : Generated.miscConsts.lookup "tranHeaderLen" = some 20 := by decide
+
+/-! Obligation over the receive paths as they are written in /repo now (`Generated/PeerReads.lean`: every call
+    that takes bytes from the peer's stream in handleNewConnection, performHandshake, handleFileTransfer,
+    UploadHandler, UploadFolderHandler, DownloadFolderHandler, receiveFile and flattenedFileObject.ReadFrom, plus any
+    read from a registered client's stored connection anywhere).  This is the premise of the `Prog` model: the one
+    scanner of the control connection aside, the server takes bytes from a peer ONLY with exact-size idioms
+    (`io.ReadFull`, `binary.Read` of a fixed-size struct, `io.CopyN`), or hands the stream to a function of which
+    the same is shown. -/
+theorem generated_peer_reads_are_exact_size :
+    Generated.peerReadFuncsMissing = [] ∧
+    (∀ e ∈ Generated.peerReads, e.2.1 = "exact" ∨ e.2.1 = "scanner" ∨ e.2.1 = "handoff") ∧
+    Generated.peerReads.filter (·.2.1 == "scanner") = [("handleNewConnection", "scanner", "bufio.NewScanner(rwc)")] ∧
+    (∀ e ∈ Generated.peerReads, e.2.1 = "handoff" →
+      e.2.2 ∈ ["performHandshake", "UploadHandler", "UploadFolderHandler", "DownloadFolderHandler", "receiveFile", "ReadFrom"]) ∧
+    -- each listed function reads something or hands the stream on (none is an empty shell)
+    (∀ f ∈ ["handleNewConnection", "performHandshake", "handleFileTransfer", "UploadHandler", "UploadFolderHandler",
+            "DownloadFolderHandler", "receiveFile", "ReadFrom"], Generated.peerReads.any (·.1 == f) = true) := by
+  decide
 
 -- non-vacuity: concrete instances meeting the hypotheses
 example : ∀ c ∈ [demoHandshake.take 5, demoHandshake.drop 5 ++ demoLogin.encode.take 3, demoLogin.encode.drop 3 ++ demoKeepAlive.encode], c ≠ [] := by
